@@ -726,7 +726,32 @@ def r17(ctx):
         raise AnalysisBroken('C13.R17: the derivation of an on-the-fly condition was not found in readConditions')
 
 
+def r18(ctx):
+    ctx.rule('C13.R18', 'a condition is checked against the text of the value stored now: the checkValue functions of the '
+             'conditions decode the referenced field into a stream that is a local of the function (a fresh one per check) - a '
+             'reused member stream that is only rewound keeps the tail of an earlier, longer text (on after off reads onf)',
+             minimum=1)
+    fb = ctx.fb
+    n = 0
+    for fn in fb.functions:
+        if not fn.name.endswith('Condition::checkValue') or not fn.nodes:
+            continue
+        for c in fn.calls('decodeLastData', 'decodeLastDataField', 'decode'):
+            v = fn.nodes[c]
+            outs = [a for a in v.get('args', []) if fn.key(a).startswith('&') and 'ostringstream' in (fn.nodes[fn.strip(fn.nodes[fn.strip(a, casts=True)].get('ch', [a])[0], casts=True)].get('t') or '')]
+            for a in outs:
+                t = fn.nodes[fn.strip(fn.nodes[fn.strip(a, casts=True)]['ch'][0], casts=True)]
+                n += 1
+                ctx.touch(fn)
+                ok = t.get('k') == 'DeclRefExpr' and t.get('rk') == 'local'
+                ctx.ob('C13.R18', fn, c, ok, 'stream the value is decoded into in %s' % fn.name.split('::', 1)[1],
+                       'a local of the function: %s (%s)' % (ok, fn.key(a)))
+    if n < 1:
+        raise AnalysisBroken('C13.R18: no decode into a string stream found in the checkValue functions')
+
+
 def run(ctx):
+    r18(ctx)
     r17(ctx)
     r16(ctx)
     import rules.common as _cmw
